@@ -15,6 +15,7 @@
 #include "mpt_plot_c.hpp"
 
 #include <cfloat>
+#include <memory>
 
 using namespace vp;
 using namespace mpt;
@@ -344,7 +345,8 @@ static void check_drawn(Ctx &c, const char *stage, size_t N, const std::vector<l
   std::vector<uint8_t> drawn(N, 0);
   size_t off = 0, total = 0;
   for (const linepart &lp : parts) total += lp.usr;
-  std::vector<polyline::point> store(total + 2);
+  static std::vector<polyline::point> store;  // only addresses inside are used; kept between calls (large for long runs)
+  if (store.size() < total + 2) store.resize(total + 2);
   const polyline::point *pts = store.data();
   for (size_t k = 0; k < parts.size(); k++) {
     const linepart &lp = parts[k];
@@ -438,6 +440,26 @@ static void run_cxx_enum(Ctx &c) {
   std::vector<double> d[2];
   for (size_t i = 0; i < n; i++) { d[0].push_back(X[c.pick(3)]); d[1].push_back(Y[c.pick(2)]); }
   c.label("enum:cxx-apply-2-dim");
+  apply_scenario(c, 2, ranges, d, preset);
+  c.nontrivial();
+}
+
+// ---- enumerated: two coordinates around the 65533-point chunks of set(N) and the 65535 limit of a part: N = 65534..65538,
+// per coordinate either all inside or one run of 1..3 points above the range starting at 65531..65537
+static void run_cxx_longenum(Ctx &c) {
+  Range rx(1, 3), ry(1, 3);
+  const Range *ranges[2] = {&rx, &ry};
+  bool preset = c.pick(2);
+  size_t N = 65534 + c.pick(5);
+  std::vector<double> d[2];
+  for (int i = 0; i < 2; i++) {
+    d[i].assign(N, 2.0);
+    size_t hole = c.pick(22);
+    if (!hole) continue;
+    size_t start = 65531 + (hole - 1) / 3, cnt = 1 + (hole - 1) % 3;
+    for (size_t k = start; k < N && k < start + cnt; k++) d[i][k] = 4.0;
+  }
+  c.label("enum:cxx-apply-2-dim-long");
   apply_scenario(c, 2, ranges, d, preset);
   c.nontrivial();
 }
@@ -564,13 +586,352 @@ static void run_cxx_set(Ctx &c) {
   if (len > 65533) { c.label("cxx-set:multi-part"); c.nontrivial(); }
 }
 
+// ---- object histories: set / clear / copy / re-chunk on the same polyline and linepart::array objects, copies kept.
+// After every step every live object is checked against the data IT was made for ("parts partition the data they belong
+// to"): parts cover exactly its points, polyline::part::points() serves exactly the points in range in every coordinate,
+// the polyline holds as many points as its parts draw, iteration over its parts terminates, and every point has the value
+// the real apply<>() template computes from its own data (cut / trim end points: the interpolated crossing).
+struct DataSet {
+  int dims = 1;
+  std::vector<double> d[2];
+  bool has[2] = {true, true};
+  Range rr[2] = {Range(1, 3), Range(1, 3)};
+  const Range *range(int i) const { return has[i] ? &rr[i] : 0; }
+  size_t len(int i) const { return d[i].size(); }
+  size_t N() const { size_t n = 0; for (int i = 0; i < dims; i++) n = std::max(n, d[i].size()); return n; }
+  bool ragged() const { return dims == 2 && d[0].size() != d[1].size(); }
+  std::vector<uint8_t> visible(int upto) const {
+    std::vector<uint8_t> v(N(), 1);
+    for (int i = 0; i < upto; i++) for (size_t k = 0; k < v.size(); k++) if (k >= d[i].size() || !in_range(d[i][k], range(i))) v[k] = 0;
+    return v;
+  }
+};
+typedef std::shared_ptr<const DataSet> DataRef;
+
+// transformation of a harness "graph": x from coordinate 0, y from coordinate 1, through the library's apply<>() template
+// (what layout::graph::transform3::apply does for a linear axis, including its guard for parts without points)
+struct PlotTransform : public RangeTransform {
+  bool apply(unsigned dim, const linepart &pt, point<double> *dest, const double *from) const override {
+    if (!from || dim > 1) return false;
+    if (!pt.usr) return true;
+    const point<double> scale(dim == 0 ? 1 : 0, dim == 1 ? 1 : 0);
+    ::mpt::apply<point<double>, double>(dest, pt, from, scale);
+    return true;
+  }
+};
+
+static DataRef draw_dataset(Ctx &c, bool allow_long) {
+  std::shared_ptr<DataSet> ds = std::make_shared<DataSet>();
+  ds->dims = c.chance(112) ? 1 : 2;
+  bool lng = allow_long && c.chance(4);
+  size_t N = lng ? (c.chance(48) ? 131064 : 65530) + c.range(0, 10) : (c.chance(8) ? 0 : c.range(1, 10));
+  for (int i = 0; i < ds->dims; i++) {
+    bool general = !lng && c.chance(40);
+    if (general) ds->has[i] = draw_range(c, ds->rr[i]) != 0;
+    size_t n = N;
+    if (i && !lng && c.chance(12)) n = c.range(1, 10);  // coordinates of different length
+    if (lng) {
+      ds->d[i].assign(n, 2.0);
+      for (size_t holes = c.range(0, 3); holes; --holes) {
+        size_t pos = c.near({1, 65532, 65534, 65536, 131066}, n - 1), cnt = c.range(1, 4);
+        double v = c.flip() ? 0.0 : 4.0;
+        for (size_t k = pos; k < n && k < pos + cnt; k++) ds->d[i][k] = v;
+      }
+    } else if (general) {
+      ds->d[i] = draw_data(c, ds->range(i), false, n);
+    } else {
+      for (size_t k = 0; k < n; k++) ds->d[i].push_back(kSym[c.pick(5)]);
+    }
+  }
+  if (lng) c.label("hist:long-data");
+  if (ds->ragged()) c.label("hist:ragged-coordinates");
+  return ds;
+}
+
+static void log_dataset(Ctx &c, const char *what, const DataSet &ds) {
+  if (!c.verbose()) return;
+  for (int i = 0; i < ds.dims; i++) {
+    const Range *r = ds.range(i);
+    if (r) c.logf("    %s dim %d: range [%.17g, %.17g], %zu values", what, i, r->min, r->max, ds.len(i));
+    else c.logf("    %s dim %d: no range, %zu values", what, i, ds.len(i));
+    const std::vector<double> &d = ds.d[i];
+    for (size_t k = 0, shown = 0; k < d.size() && shown < 40; k++)
+      if (k < 12 || k + 4 >= d.size() || d[k] != d[k - 1] || (k + 1 < d.size() && d[k] != d[k + 1])) { c.logf("      [%zu] %.17g %s", k, d[k], cls(d[k], r)); ++shown; }
+  }
+}
+static void log_parts(Ctx &c, const char *name, const std::vector<linepart> &parts) {
+  if (!c.verbose()) return;
+  std::string t;
+  char buf[96];
+  for (size_t k = 0; k < parts.size() && k < 24; k++) { snprintf(buf, sizeof buf, " {raw %u usr %u cut %u trim %u}", parts[k].raw, parts[k].usr, parts[k]._cut, parts[k]._trim); t += buf; }
+  c.logf("    %s: %zu parts%s", name, parts.size(), t.c_str());
+}
+
+// parts right after linepart::array::set(n): n points, all drawn, nothing cut
+static void check_preset(Ctx &c, const char *name, size_t N, const std::vector<linepart> &parts) {
+  size_t sr = 0, su = 0;
+  for (size_t k = 0; k < parts.size(); k++) {
+    VP_CHECK(c, parts[k].raw >= 1, "cxx-set-empty-part", "%s: part %zu of %zu covers no point", name, k, parts.size());
+    VP_CHECK(c, !parts[k]._cut && !parts[k]._trim, "cxx-set-fraction", "%s: after set() part %zu has cut %u trim %u", name, k, parts[k]._cut, parts[k]._trim);
+    sr += parts[k].raw; su += parts[k].usr;
+  }
+  VP_CHECK(c, sr == N && su == N, "cxx-set-sum", "%s: after set() for %zu points the parts cover raw %zu usr %zu", name, N, sr, su);
+}
+
+// parts against the data set they belong to, after `applied` coordinates
+static void check_against(Ctx &c, const char *name, const DataSet &ds, int applied, const std::vector<linepart> &parts, bool single_run_oracle) {
+  if (!applied) return check_preset(c, name, ds.N(), parts);
+  if (ds.ragged()) {
+    // coordinates of different length: only the statement about the points covered (the longest coordinate; maxsize())
+    size_t sr = 0;
+    for (const linepart &lp : parts) sr += lp.raw;
+    VP_CHECK(c, sr == ds.N(), "raw-sum", "%s: the parts cover %zu points, the coordinates have %zu and %zu values", name, sr, ds.len(0), ds.len(1));
+    return;
+  }
+  if (single_run_oracle && applied == 1) check_parts(c, name, ds.d[0], ds.range(0), parts);
+  check_drawn(c, name, ds.N(), parts, ds.visible(applied));
+}
+
+struct PolySlot {
+  polyline pl;
+  DataRef data;  // data of the last successful set(), none: nothing to draw
+};
+static void check_polyline(Ctx &c, const char *name, const PolySlot &s) {
+  span<const linepart> ps = s.pl.parts();
+  std::vector<linepart> parts;
+  for (long k = 0; k < ps.size(); k++) parts.push_back(ps.begin()[k]);
+  span<const polyline::point> pts = s.pl.points();
+  long np = pts.size(), su = 0;
+  for (const linepart &lp : parts) su += lp.usr;
+  log_parts(c, name, parts);
+  VP_CHECK(c, np == su, "points-parts-mismatch", "%s: the parts draw %ld points, the polyline holds %ld", name, su, np);
+  long steps = 0, served = 0;
+  for (polyline::iterator it = s.pl.begin(), end = s.pl.end(); it != end; ++it) {
+    VP_CHECK(c, ++steps <= (long)parts.size() + 1, "iteration-endless", "%s: iteration over %zu parts does not reach end()", name, parts.size());
+    served += (*it).line().size();
+  }
+  VP_CHECK(c, served == su, "points-parts-mismatch", "%s: iteration serves %ld points in %ld steps, the parts draw %ld", name, served, steps, su);
+  if (!s.data) {
+    VP_CHECK(c, np == 0, "points-parts-mismatch", "%s: nothing to draw but %ld points", name, np);
+    return;
+  }
+  const DataSet &ds = *s.data;
+  check_against(c, name, ds, ds.dims, parts, true);
+  if (ds.ragged()) return;
+  // point values
+  size_t off = 0, uoff = 0;
+  for (size_t k = 0; k < parts.size(); k++) {
+    const linepart &lp = parts[k];
+    for (size_t j = 0; j < lp.usr; j++) {
+      double want[2] = {0, 0};
+      for (int i = 0; i < ds.dims; i++) {
+        const double *src = ds.d[i].data() + off;
+        if (j == 0 && lp._cut && lp.usr >= 2) want[i] = src[0] + (double)lp.cut() * (src[1] - src[0]);
+        else if (j + 1 == lp.usr && lp._trim && lp.usr >= 2) want[i] = src[j] + (double)lp.trim() * (src[j - 1] - src[j]);
+        else want[i] = src[j];
+      }
+      const polyline::point &pt = pts.begin()[uoff + j];
+      double tol[2];
+      for (int i = 0; i < 2; i++) tol[i] = 1e-12 * std::fabs(want[i]) + 1e-300;
+      VP_CHECK(c, std::fabs(pt.x - want[0]) <= tol[0] && std::fabs(pt.y - want[1]) <= tol[1], "point-value",
+               "%s: point %zu of part %zu {raw %u usr %u cut %u trim %u} at %zu is (%.17g, %.17g), its data give (%.17g, %.17g)", name, j, k, lp.raw, lp.usr, lp._cut, lp._trim, off, pt.x, pt.y,
+               want[0], want[1]);
+    }
+    off += lp.raw;
+    uoff += lp.usr;
+  }
+}
+
+struct PartSlot {
+  linepart::array a;
+  DataRef data;
+  int applied = 0;    // coordinates applied since the last set()
+  bool clean = true;  // built by set()/empty + apply in order: the single-run oracle applies to the first coordinate
+};
+static void check_partslot(Ctx &c, const char *name, const PartSlot &s) {
+  std::vector<linepart> parts(s.a.begin(), s.a.end());
+  log_parts(c, name, parts);
+  if (!s.data) {
+    VP_CHECK(c, parts.empty(), "cxx-set-sum", "%s: emptied array has %zu parts", name, parts.size());
+    return;
+  }
+  check_against(c, name, *s.data, s.applied, parts, s.clean);
+}
+
+static void run_history(Ctx &c) {
+  enum { NP = 3, NA = 3 };
+  PolySlot P[NP];
+  PartSlot A[NA];
+  int longs = 0, steps = 0;
+  int pgroup[NP] = {0, 1, 2}, agroup[NA] = {0, 1, 2}, next_group = 3;  // objects that share storage since their last copy
+  bool resets = false, copies = false;
+  char name[32];
+  while (c.more() && steps++ < 16) {
+    size_t op = c.weighted({8, 2, 4, 5, 3, 3, 3, 2});
+    size_t k = c.pick(3);
+    int group_before = op <= 2 ? pgroup[k] : agroup[k];
+    switch (op) {
+      case 0: {  // polyline::set
+        DataRef ds = draw_dataset(c, longs < 1);
+        if (ds->N() > 60000) ++longs;
+        PlotTransform tr;
+        value_store st[2];
+        for (int i = 0; i < ds->dims; i++) {
+          tr.r.push_back(ds->range(i));
+          st[i].set(span<const double>(ds->d[i].data(), (long)ds->len(i)));
+        }
+        std::vector<linepart> before;
+        for (long j = 0; j < P[k].pl.parts().size(); j++) before.push_back(P[k].pl.parts().begin()[j]);
+        long np_before = P[k].pl.points().size();
+        bool had = P[k].data || !before.empty();
+        c.logf("P%zu.set(%d coordinates, %zu points) ...", k, ds->dims, ds->N());
+        log_dataset(c, "new data", *ds);
+        bool ok = P[k].pl.set(tr, span<const value_store>(st, ds->dims));
+        c.logf("  -> %d", ok);
+        if (ok) {
+          P[k].data = ds;
+          c.label("hist:polyline-set");
+          if (had) { c.label("hist:polyline-set-again"); resets = true; }
+        } else {
+          long np = P[k].pl.points().size(), su = 0;
+          std::vector<linepart> after;
+          for (long j = 0; j < P[k].pl.parts().size(); j++) { after.push_back(P[k].pl.parts().begin()[j]); su += after.back().usr; }
+          bool same = after.size() == before.size() && np == np_before && (after.empty() || !memcmp(after.data(), before.data(), after.size() * sizeof(linepart)));
+          if (same) c.label("hist:polyline-set-refused-unchanged");
+          else {
+            // a refused set() may leave the object without anything to draw, but not with a mixture of old and new
+            VP_CHECK(c, su == 0 && np == 0, "refused-set-inconsistent", "P%zu: refused set() leaves parts drawing %ld points and %ld points held (before: %ld)", k, su, np, np_before);
+            P[k].data.reset();
+            c.label("hist:polyline-set-refused-emptied");
+            if (had) resets = true;
+          }
+        }
+        break;
+      }
+      case 1: P[k].pl.clear(); P[k].data.reset(); c.logf("P%zu.clear()", k); c.label("hist:polyline-clear"); break;
+      case 2: {  // copy of a polyline (shares parts and points until one side is written)
+        size_t from = c.pick(3);
+        if (from == k) break;
+        if (c.flip()) P[k].pl = P[from].pl; else { polyline tmp(P[from].pl); P[k].pl = tmp; }
+        P[k].data = P[from].data;
+        pgroup[k] = pgroup[from];
+        c.logf("P%zu = P%zu", k, from);
+        if (P[k].data) { c.label("hist:polyline-copy"); copies = true; }
+        break;
+      }
+      case 3: {  // part array: set(n) for new data
+        DataRef ds = draw_dataset(c, longs < 1);
+        if (ds->N() > 60000) ++longs;
+        bool had = A[k].a.length() > 0;
+        bool ok = A[k].a.set((long)ds->N());
+        c.logf("A%zu.set(%zu) -> %d", k, ds->N(), ok);
+        log_dataset(c, "data", *ds);
+        VP_CHECK(c, ok, "cxx-set-sum", "set(%zu) failed", ds->N());
+        if (ds->N()) { A[k].data = ds; A[k].applied = 0; A[k].clean = true; } else { A[k].data.reset(); A[k].applied = 0; }
+        c.label("hist:array-set");
+        if (had) { c.label("hist:array-set-again"); resets = true; }
+        break;
+      }
+      case 4: {  // next coordinate; an empty array takes new data directly
+        if (!A[k].data) {
+          if (A[k].a.length()) break;
+          DataRef ds = draw_dataset(c, longs < 1);
+          if (ds->N() > 60000) ++longs;
+          if (!ds->N() || ds->ragged()) break;
+          A[k].data = ds; A[k].applied = 0; A[k].clean = true;
+          log_dataset(c, "data", *ds);
+        }
+        const DataSet &ds = *A[k].data;
+        if (A[k].applied >= ds.dims || ds.ragged()) break;
+        int dim = A[k].applied;
+        PlotTransform tr;
+        for (int i = 0; i < ds.dims; i++) tr.r.push_back(ds.range(i));
+        Slice sl(ds.d[dim].data(), ds.len(dim));
+        bool ok = A[k].a.apply(tr, dim, span<const double>(sl.p, (long)ds.len(dim)));
+        c.logf("A%zu.apply(dim %d, %zu values) -> %d", k, dim, ds.len(dim), ok);
+        VP_CHECK(c, ok, "cxx-apply-refused", "apply(dim %d, %zu values) failed", dim, ds.len(dim));
+        A[k].applied = dim + 1;
+        c.label("hist:array-apply");
+        break;
+      }
+      case 5: {  // re-chunk: set(-1) keeps the number of points, all drawn again
+        bool ok = A[k].a.set(-1);
+        c.logf("A%zu.set(-1) -> %d", k, ok);
+        VP_CHECK(c, ok, "cxx-set-sum", "set(-1) failed");
+        if (A[k].data) { A[k].applied = 0; A[k].clean = true; c.label("hist:array-rechunk"); resets = true; }
+        break;
+      }
+      case 6: {  // copy of a part array
+        size_t from = c.pick(3);
+        if (from == k) break;
+        if (c.flip()) A[k].a = A[from].a; else { linepart::array tmp(A[from].a); A[k].a = tmp; }
+        A[k].data = A[from].data; A[k].applied = A[from].applied; A[k].clean = A[from].clean;
+        agroup[k] = agroup[from];
+        c.logf("A%zu = A%zu", k, from);
+        if (A[k].data) { c.label("hist:array-copy"); copies = true; }
+        break;
+      }
+      default: A[k].a.set(0); A[k].data.reset(); A[k].applied = 0; c.logf("A%zu.set(0)", k); break;
+    }
+    // every object is re-checked after every step, except long ones that neither were the target of the step nor share
+    // (or shared when the step began) storage with the target
+    bool onP = op <= 2;
+    for (size_t i = 0; i < NP; i++) {
+      bool related = onP && (i == k || pgroup[i] == group_before);
+      if (!related && P[i].data && P[i].data->N() > 4096) continue;
+      snprintf(name, sizeof name, "P%zu", i);
+      check_polyline(c, name, P[i]);
+    }
+    for (size_t i = 0; i < NA; i++) {
+      bool related = !onP && (i == k || agroup[i] == group_before);
+      if (!related && A[i].data && A[i].data->N() > 4096) continue;
+      snprintf(name, sizeof name, "A%zu", i);
+      check_partslot(c, name, A[i]);
+    }
+    if (op == 0 || op == 1) pgroup[k] = next_group++;
+    if (op == 3 || op == 4 || op == 5 || op == 7) agroup[k] = next_group++;
+  }
+  c.label("hist");
+  if (resets || copies) c.nontrivial();
+  if (resets && copies) c.label("hist:copy-and-reset");
+}
+
+// ---- apply_data() without part records (span without address, its size is the number of points): every point of every
+// coordinate is transformed, in pieces of at most 65535
+static void run_apply_data_noparts(Ctx &c) {
+  static const size_t kN[] = {1, 2, 65534, 65535, 65536, 65537, 131069, 131070, 131071, 196606};
+  size_t N = kN[c.pick(10)];
+  int dims = 1 + (int)c.pick(2);
+  PlotTransform tr;
+  value_store st[2];
+  std::vector<double> d[2];
+  for (int i = 0; i < dims; i++) {
+    tr.r.push_back(0);
+    for (size_t k = 0; k < N; k++) d[i].push_back(i ? -(double)k - 1 : (double)k + 1);
+    st[i].set(span<const double>(d[i].data(), (long)N));
+  }
+  std::vector<point<double> > dest(N);
+  int proc = apply_data(dest.data(), span<const linepart>(0, (long)N), tr, span<const value_store>(st, dims));
+  c.logf("apply_data(no parts, %zu points, %d coordinates) -> %d", N, dims, proc);
+  VP_CHECK(c, proc == dims, "apply-data-dimensions", "apply_data processed %d of %d coordinates", proc, dims);
+  for (size_t k = 0; k < N; k++) {
+    double wx = (double)k + 1, wy = dims > 1 ? -(double)k - 1 : 0;
+    VP_CHECK(c, dest[k].x == wx && dest[k].y == wy, "point-value", "apply_data without parts, %zu points: point %zu is (%.17g, %.17g), its data give (%.17g, %.17g)", N, k, dest[k].x, dest[k].y, wx, wy);
+  }
+  c.label("apply-data:no-parts");
+  if (N > 65535) c.nontrivial();
+}
+
 static void run(Ctx &c) {
   uint8_t sel = c.u8();
+  if (sel == 0xfb) return run_apply_data_noparts(c);
+  if (sel >= 150 && sel < 176) return run_history(c);
   if (sel >= 206 && sel < 216) return run_cxx_set(c);
   if (sel >= 176 && sel < 206) return run_cxx_apply(c);
   if (sel == 0xff) return run_alphabet(c);
   if (sel == 0xfe) return run_longenum(c);
   if (sel == 0xfd) return run_cxx_enum(c);
+  if (sel == 0xfc) return run_cxx_longenum(c);
   if (sel >= 236) return run_code(c);
   if (sel >= 216) return run_join_records(c);
   run_random(c);
@@ -615,6 +976,32 @@ static void cxx2_make(uint64_t idx, int, std::vector<uint8_t> &out) {
   for (size_t i = 0; i < n; i++) { out.push_back((uint8_t)(idx % 3)); out.push_back((uint8_t)((idx / 3) % 2)); idx /= 6; }
 }
 
+// quick: N in {65535, 65537}, runs of 1 or 3 points (2 x 2 x 15 x 15); thorough: N 65534..65538, runs of 1..3 (2 x 5 x 22 x 22)
+static uint64_t noparts_count(int) { return 20; }
+static void noparts_make(uint64_t idx, int, std::vector<uint8_t> &out) {
+  out.clear();
+  out.push_back(0xfb);
+  out.push_back((uint8_t)(idx % 10));
+  out.push_back((uint8_t)(idx / 10));
+}
+static uint64_t cxx2long_count(int tier) { return tier ? 2 * 5 * 22 * 22 : 2 * 2 * 15 * 15; }
+static void cxx2long_make(uint64_t idx, int tier, std::vector<uint8_t> &out) {
+  out.clear();
+  out.push_back(0xfc);
+  out.push_back((uint8_t)(idx % 2)); idx /= 2;
+  if (tier) {
+    out.push_back((uint8_t)(idx % 5)); idx /= 5;
+    out.push_back((uint8_t)(idx % 22)); idx /= 22;
+    out.push_back((uint8_t)(idx % 22));
+  } else {
+    out.push_back((uint8_t)(idx % 2 ? 3 : 1)); idx /= 2;
+    for (int i = 0; i < 2; i++) {
+      uint64_t h = idx % 15; idx /= 15;
+      out.push_back((uint8_t)(h ? 1 + ((h - 1) / 2) * 3 + ((h - 1) % 2) * 2 : 0));  // start index (h-1)/2, length 1 or 3
+    }
+  }
+}
+
 static Target t = {
     "C18",
     "random: range (normal | min==max | min>max | one/both sides infinite | none) x run-length structured real sequence (below/at-min/inside/at-max/above realised next to, on and far "
@@ -632,7 +1019,9 @@ static Target t = {
     {{"sequences len<=8 (9) over 5 classes, whole remainder", alpha_count, alpha_make},
      {"sequences len<=6 (8) over 5 classes x 1..3 points per call", chunk_count, chunk_make},
      {"run lengths 65533..65537 x 81 head/body/tail patterns", long_count, long_make},
-     {"two coordinates: (x,y) sequences len<=6 (7) over {below,inside,above}x{inside,above}, from set(N) and from an empty array", cxx2_count, cxx2_make}},
+     {"two coordinates: (x,y) sequences len<=6 (7) over {below,inside,above}x{inside,above}, from set(N) and from an empty array", cxx2_count, cxx2_make},
+     {"two coordinates around the chunk limit: N 65534..65538 (quick: 65535, 65537) x (no / one run of 1..3 (quick: 1 or 3) points outside from 65531..65537) per coordinate, from set(N) and from an empty array", cxx2long_count, cxx2long_make},
+     {"apply_data without part records: 10 point counts up to 3 x 65535 x 1..2 coordinates", noparts_count, noparts_make}},
     0,
     0,
 };
